@@ -253,7 +253,7 @@ exit:
 static void
 RuntimeProfileDedupStrItems(char *input)
 {
-    size_t len = strlen(input), slen;
+    size_t len = strlen(input), slen, ilen;
     char *comma, *equals, *dup, *ncomma;
     char *pos = input;
     bool found;
@@ -264,6 +264,8 @@ RuntimeProfileDedupStrItems(char *input)
         if (!comma)
             return;
 
+        /* length of the whole item including a possible '=value' part */
+        ilen = comma - pos;
         /* temporarily terminate string here */
         *comma = '\0';
         equals = index(pos, '=');
@@ -284,7 +286,7 @@ RuntimeProfileDedupStrItems(char *input)
             if (dup) {
                 /* ensure 'dup' is a prefix of 'pos' with either ',' or '\0' before it */
                 if ((dup[-1] == ',' || dup[-1] == 0) && dup[slen] == exp) {
-                    memmove(pos, comma + 1, len - slen);
+                    memmove(pos, comma + 1, len - ilen);
                     /* keep pos as-is */
                     found = true;
                     break;
@@ -303,7 +305,7 @@ RuntimeProfileDedupStrItems(char *input)
                *equals = '=';
             pos = comma + 1;
         }
-        len -= (slen + 1);
+        len -= (ilen + 1);
     }
 }
 
